@@ -102,6 +102,7 @@ type Exec struct {
 	derBlobs     map[*ArrObj][]derElem
 	fs           map[string]*fsFile
 	fileContent  map[string]string
+	u64          map[*Cell]u64tag
 	umaskT       *smt.Term
 	digestVals   map[*Array]*smt.Term
 	initDone     map[*ssa.Package]bool
@@ -714,6 +715,11 @@ func (ex *Exec) eval(fr *frame, v ssa.Value) Value {
 		p := ex.get(fr, x.X).(Pointer)
 		if p.C == nil {
 			ex.goPanic("nil pointer dereference (field %d of %s)", x.Field, x.X.Type())
+		}
+		if o, isOpaque := p.C.V.(*Opaque); isOpaque {
+			// a field of an object we do not look into: another opaque object
+			ex.cellSeq++
+			return Pointer{C: &Cell{ID: ex.cellSeq, V: &Opaque{Kind: o.Kind + ".field", Data: o.Data}}}
 		}
 		so, ok := p.C.V.(*StructObj)
 		if !ok {
